@@ -37,6 +37,15 @@ func runC20(p *Program, e *Engine, r *Result, tier string) {
 	e.InlinePkg = p.Ztest
 	a := &An{P: p, E: e, R: r, walks: map[*ssa.Function]*Walker{}}
 	c20Grouping(a)
+	c20ContextTrim(a)
+	rfs := c20RangeFormatters(a)
+	if len(rfs) == 0 {
+		r.fail("anchor unresolved: no (int, int) string function in internal/ztest (range formatter of the hunk header)")
+	}
+	for _, rf := range rfs {
+		c20RangeFormat(a, rf)
+	}
+	c20HeaderBody(a, rfs)
 	for _, name := range []string{"Diff", "DiffMatch"} {
 		fn := p.Ztest.Func(name)
 		if fn == nil {
